@@ -32,6 +32,7 @@ func TestVerifC02(t *testing.T) {
 		return
 	}
 	dist := vk.Distinct{}
+	steps := &simCases{o: o, m: m, prefix: "c02s", checker: "mismatches_mgr"}
 	faults := []string{"crash_node", "isolate_node", "kill_mysync", "dcs_lost_one", "dcs_lost_all", "switch_to", "switch_from"}
 	var ins []simIn
 	for _, n := range []int{2, 3, 4} {
@@ -62,17 +63,31 @@ func TestVerifC02(t *testing.T) {
 			simIn{N: 3, Cascade: true, WaitCount: 1, Failover: true, Fault: f, Target: 1, At: 3, Duration: 4, Ticks: 30},
 			simIn{N: 3, Cascade: true, WaitCount: 1, Failover: true, Fault: f, Target: 2, At: 3, Duration: 4, Ticks: 30})
 	}
+	// a replica whose SQL thread lags behind what it has received: the promoted node must first apply everything
+	var always []simIn
+	for _, n := range []int{2, 3} {
+		for _, hold := range []int{2, 5} {
+			always = append(always,
+				simIn{N: n, WaitCount: 1, Failover: true, Fault: "switch_to", Target: 2, At: 3, Duration: 1, SlowApply: 2, SlowFor: hold, Ticks: 30},
+				simIn{N: n, WaitCount: 1, Failover: true, Fault: "switch_from", Target: 1, At: 3, Duration: 1, SlowApply: 2, SlowFor: hold, Ticks: 30},
+				simIn{N: n, WaitCount: 1, Failover: true, Fault: "crash_node", Target: 1, At: 3, Duration: 9, SlowApply: 2, SlowFor: hold, Ticks: 36})
+		}
+	}
 	stride := 9
 	if o.Thorough() {
 		stride = 1
 	}
+	ins = append(always, ins...)
 	for i, in := range ins {
-		if i%stride != int(o.Seed)%stride {
+		if i >= len(always) && i%stride != int(o.Seed)%stride {
 			continue
 		}
 		in.Order = o.Seed*1000 + int64(i)
 		out := simRunT(t, in)
 		c02Check(m, in, out)
+		if m.Evaluations%4 == 0 || o.Thorough() && m.Evaluations%3 == 0 {
+			steps.add(in, out.Steps)
+		}
 		m.Evaluations++
 		dist.Add(fmt.Sprintf("%+v", in))
 		m.Count("fault_" + in.Fault)
@@ -81,6 +96,7 @@ func TestVerifC02(t *testing.T) {
 			m.Count("master_changed")
 		}
 	}
+	steps.flush()
 	m.DistinctNontrivial = dist.Len()
 	m.Rule = fmt.Sprintf("the real daemons (one App per host: state machine, health and recovery checkers) over fake servers and a shared coordination tree, client writes attempted on every node every tick: %d scenarios = fault kind (crash / isolation of a node, mysync killed, coordination lost by one host / by all, switchover to / from) x target host x injection instant within the tick cycle x duration 1/4/9 ticks x 2-4 nodes x required acknowledgements 1-2, plus failover disabled and a cascade replica (quick: every 9th, offset by the seed); 25-34 ticks of 5 s; distinct = distinct scenarios", len(ins))
 	o.WriteMeta("c02", m)
